@@ -31,6 +31,10 @@ func judgeSetter(c *Ctx, j judge, key func() string, z *Dec, pv interface{}, exa
 	}
 	ok := matchValue(o, exp)
 	switch j {
+	case judgeAttr:
+		if msg := attrMsg(o, prec, mode); msg != "" {
+			c.Fail(key(), msg)
+		}
 	case judgeValue:
 		if !ok {
 			c.Fail(key(), cmpValue(o, exp))
@@ -298,6 +302,11 @@ func setterLayers(j judge, tier string) []Layer {
 							ok := matchValue(o, exp)
 							if j == judgeValue && !ok {
 								c.Fail(key(), cmpValue(o, exp))
+							}
+							if j == judgeAttr {
+								if msg := attrMsg(o, p, m); msg != "" {
+									c.Fail(key(), msg)
+								}
 							}
 							if j == judgeAcc {
 								want := exp.Acc
